@@ -221,7 +221,16 @@ def run(ctx):
                     nrandB = sum(1 for k in kindsB if k != 'determined')
                     if abs(float(circ.log2prob) + nrand + nrandB) > 1e-9:
                         ctx.fail('Circuit.forward', 'log2prob accumulated over two runs is %s, the two trajectories have log2 probability %d and %d' % (float(circ.log2prob), -nrand, -nrandB), repB)
+                    # the model object, run a second time with the coins of the second run, holds the same accumulated record
+                    coinsB = [0 if res_ == 1 else 1 for k_, res_ in zip(kindsB, resB) if k_ != 'determined']
+                    ansB = ctx.drv.ask('circ %s fwd S 0 %s %s - none' % (a, H.erows_ops(rowsB), E.ebits(coinsB)))
+                    recB = ctx.drv.ask('circ %s record' % a).split(' ')
+                    ctx.count('corr:second-run')
+                    mvB = (E.dints(recB[0]), int(recB[1])) if ansB.startswith('ok ') else ansB
+                    if mvB != (allres, nrand + nrandB):
+                        ctx.mismatch('Circuit.forward', 'circ fwd S (second run of the same object)', str(mvB)[:600], str((allres, nrand + nrandB))[:600], dict(rep=repB))
                     if int(stB.r) == 0:
+                        mbB = ctx.drv.ask('circ %s bwd S 0 %s _ - none' % (a, H.erows_ops(postB)))
                         st_own = impl.state(postB, 0)
                         try:
                             circ.backward(st_own)
@@ -241,6 +250,10 @@ def run(ctx):
                         g_ref = O.canon_group(impl.ops_of(st_ref)[int(st_ref.r):N])[0]
                         if g_own != g_ref:
                             ctx.fail('Circuit.backward', 'after two forward runs, backward() with the own record does not replay the outcomes of the last run', repB)
+                        ctx.count('corr:second-run-backward')
+                        mvO = (int(mbB.split(' ')[1]), O.canon_group(H.drows_ops(mbB.split(' ')[2])[int(mbB.split(' ')[1]):N])[0]) if mbB.startswith('ok ') else mbB
+                        if mvO != (int(st_own.r), g_own):
+                            ctx.mismatch('Circuit.backward', 'circ bwd S own record after two runs', str(mvO)[:600], str((int(st_own.r), g_own))[:600], dict(rep=repB))
         except Exception as e:
             import traceback
             ctx.fail('Circuit', 'implementation raised %r' % e, dict(rep, tb=traceback.format_exc()[-700:]))
